@@ -718,6 +718,157 @@ func e2eKinds(s *synth.Signer) {
 	}
 }
 
+// ---------- several signers in one CMS ----------
+func nthIndex(b, pat []byte, n int) int {
+	off := 0
+	for k := 0; ; k++ {
+		i := bytes.Index(b[off:], pat)
+		if i < 0 {
+			return -1
+		}
+		if k == n {
+			return off + i
+		}
+		off += i + 1
+	}
+}
+
+func statusKey(st model.SignatureStatus) string {
+	switch st {
+	case model.SignatureStatusValid:
+		return "valid"
+	case model.SignatureStatusInvalid:
+		return "invalid"
+	}
+	return "unknown"
+}
+
+func e2eMultiSigner(ss []*synth.Signer) {
+	type cfg struct {
+		n    int
+		algs []string
+	}
+	cfgs := []cfg{{2, []string{"sha256", "sha256"}}, {2, []string{"sha256", "sha512"}}, {3, []string{"sha256", "sha384", "sha256"}}, {3, []string{"sha512", "sha256", "sha384"}}}
+	if !r.Thorough() {
+		cfgs = cfgs[:3]
+	}
+	for _, c := range cfgs {
+		signers := ss[:c.n]
+		d, err := synth.Build(signers[0], synth.Options{Payload: randPayload(10 + r.Rand.Intn(20)),
+			MakeCMS: func(data []byte) ([]byte, error) { return synth.MultiCMS(signers, c.algs, data) }})
+		if err != nil {
+			r.OracleFail("c27-harness-cannot-build-kind", map[string]any{"kind": "multi-signer"}, err.Error())
+			continue
+		}
+		cms, _ := hex.DecodeString(d.Hex)
+		p7, err := pkcs7.Parse(cms)
+		if err != nil || len(p7.Signers) != c.n {
+			r.OracleFail("c27-harness-cannot-build-kind", map[string]any{"kind": "multi-signer"}, fmt.Sprint("parse: ", err))
+			continue
+		}
+		verdictAll := func(f []byte, shift int, all bool) verdict {
+			infos, err := synth.ValidateAll(f, shift, all)
+			if err != nil && strings.HasPrefix(err.Error(), "PANIC") {
+				return verdict{panicMs: err.Error()}
+			}
+			for _, si := range infos {
+				if si.Result != nil {
+					return verdict{ok: true, status: si.Result.Status, reason: si.Result.Reason, docmod: si.Result.DocModified, si: si}
+				}
+			}
+			return verdict{}
+		}
+		flags := func(tampered int) string {
+			t := make([]string, c.n)
+			for i := range t {
+				t[i] = "110" // signature and digest fine, revocation status unknown offline
+				if i == tampered {
+					t[i] = "010"
+				}
+			}
+			return strings.Join(t, ",")
+		}
+		for _, shift := range []int{0, 1} {
+			for _, all := range []bool{false, true} {
+				g := verdictAll(d.Bytes, shift, all)
+				r.Count(fmt.Sprintf("multi-signer baseline n=%d shift=%d all=%v status=%s docmodified=%s", c.n, shift, all, statusKey(g.status), triS(g.docmod)))
+				if g.ok {
+					r.Case("p7Status", []string{"true", vh.Bool(all), flags(-1)}, statusKey(g.status))
+					if shift == 1 && g.docmod == model.False {
+						baselineOK["multi"]++
+					}
+				}
+				for k := 0; k < c.n; k++ {
+					type target struct {
+						what string
+						off  int // offset inside the CMS
+						k    bool
+					}
+					var ts []target
+					sg := p7.Signers[k]
+					if i := bytes.Index(cms, sg.EncryptedDigest); i >= 0 {
+						for _, o := range []int{0, len(sg.EncryptedDigest) / 2, len(sg.EncryptedDigest) - 1} {
+							ts = append(ts, target{"signature-value", i + o, true})
+						}
+					}
+					for _, a := range sg.AuthenticatedAttributes {
+						if len(a.Value.Bytes) >= 22 { // the messageDigest attribute value (OCTET STRING)
+							same := 0
+							for j := 0; j < k; j++ {
+								for _, a2 := range p7.Signers[j].AuthenticatedAttributes {
+									if bytes.Equal(a2.Value.Bytes, a.Value.Bytes) {
+										same++
+									}
+								}
+							}
+							if i := nthIndex(cms, a.Value.Bytes, same); i >= 0 {
+								ts = append(ts, target{"signed-attribute", i + len(a.Value.Bytes) - 1, true})
+							}
+						}
+					}
+					if k < len(p7.Certificates) {
+						if i := bytes.Index(cms, signers[k].Cert.Raw); i >= 0 {
+							ts = append(ts, target{"certificate", i + len(signers[k].Cert.Raw) - 3, false})
+						}
+					}
+					for _, t := range ts {
+						f := append([]byte{}, d.Bytes...)
+						pos := d.GapStart + 1 + 2*t.off + r.Rand.Intn(2)
+						old := f[pos]
+						for f[pos] == old {
+							f[pos] = hexU[r.Rand.Intn(16)]
+						}
+						v := verdictAll(f, shift, all)
+						in := map[string]any{"signers": c.n, "algs": c.algs, "tamperedSigner": k + 1, "what": t.what, "all": all, "shift": shift, "file": vh.Hex(f)}
+						r.Count(fmt.Sprintf("multi-signer tamper signer=%d %s all=%v", k+1, t.what, all))
+						switch {
+						case v.panicMs != "":
+							r.OracleFail("c27-panic-validate", in, v.panicMs)
+						case !v.ok:
+							r.OracleOK()
+						case v.status == model.SignatureStatusValid:
+							r.OracleFail("c27-tampered-signer-accepted", in, "a tampered signer and status valid")
+						case all && g.ok && v.status == g.status && v.reason == g.reason && v.docmod == g.docmod:
+							r.OracleFail("c27-tampered-signer-accepted", in, fmt.Sprintf(
+								"validateAll: signer %d of %d was tampered (%s) but the verdict is the genuine one (status=%v reason=%v docModified=%s): the signer was not verified",
+								k+1, c.n, t.what, v.status, v.reason, triS(v.docmod)))
+						default:
+							r.OracleOK()
+						}
+						if v.ok && t.k {
+							r.Case("p7Status", []string{"true", vh.Bool(all), flags(k)}, statusKey(v.status))
+						}
+					}
+				}
+			}
+		}
+	}
+	if baselineOK["multi"] == 0 {
+		r.OracleFail("c27-harness-baseline-never-unmodified", map[string]any{"what": "multi-signer documents"},
+			"no intact multi-signer document is reported unmodified: the multi-signer oracle would be vacuous")
+	}
+}
+
 func e2eSamples() {
 	repo := os.Getenv("VERIF_REPO")
 	if repo == "" {
@@ -833,5 +984,17 @@ func main() {
 	e2eSynth(s)
 	e2eForgedContent(s)
 	e2eKinds(s)
+	ss := []*synth.Signer{s}
+	for i := 1; i < 3; i++ {
+		x, err := synth.NewSignerNamed(fmt.Sprintf("verif throw-away signer %d", i+1), int64(0x2728+i))
+		if err != nil {
+			panic(err)
+		}
+		if err := x.InstallTrust(filepath.Join(r.Dir, "certs")); err != nil {
+			panic(err)
+		}
+		ss = append(ss, x)
+	}
+	e2eMultiSigner(ss)
 	e2eSamples()
 }
